@@ -649,6 +649,137 @@ theorem syncEntries_eq (tab : Table) (cached : List Row) (backend : List ReplyRo
       cached.filter (fun r => (backend.map replyId).contains (r.int "id")) ++
         (backend.filter (fun r => !(cached.map (·.int "id")).contains (replyId r))).map (coerceRow tab) := rfl
 
+/-- the table of a comments / downtimes store: numeric `id`, text `host_name` and
+    `service_description`, all locally stored -/
+structure EntryTable (tab : Table) : Prop where
+  id : ∃ c, tab.col? "id" = some c ∧ c.storage = .loc ∧ c.dtype = .int64
+  host : ∃ c, tab.col? "host_name" = some c ∧ c.storage = .loc ∧ c.dtype = .str
+  svc : ∃ c, tab.col? "service_description" = some c ∧ c.storage = .loc ∧ c.dtype = .str
+
+theorem coerceRow_int_id {tab : Table}
+    (hid : ∃ c, tab.col? "id" = some c ∧ c.storage = .loc ∧ c.dtype = .int64) (r : ReplyRow) :
+    (coerceRow tab r).int "id" = replyId r := by
+  obtain ⟨c, hc, hl, hd⟩ := hid
+  unfold Row.int replyId replyInt
+  rw [coerceRow_cell?, hc]
+  simp only [hl, hd, beq_self_eq_true, if_true]
+  cases List.find? (fun x => x.1 == "id") r with
+  | none => rfl
+  | some p => rfl
+
+theorem coerceRow_strCell {tab : Table} {n : String}
+    (h : ∃ c, tab.col? n = some c ∧ c.storage = .loc ∧ c.dtype = .str) (r : ReplyRow) :
+    strCell (coerceRow tab r) n = replyStr r n := by
+  obtain ⟨c, hc, hl, hd⟩ := h
+  unfold strCell replyStr
+  rw [coerceRow_cell?, hc]
+  simp only [hl, hd, beq_self_eq_true, if_true]
+  cases List.find? (fun x => x.1 == n) r with
+  | none => rfl
+  | some p => rfl
+
+theorem changed_of_ids_differ {cached : List Row} {backend : List ReplyRow}
+    (hbn : (backend.map replyId).Nodup)
+    (hfresh : ∀ r ∈ backend, replyId r ∉ cached.map (·.int "id") →
+      ∀ c ∈ cached, c.int "id" < replyId r)
+    (hdiff : ¬ ∀ i, i ∈ backend.map replyId ↔ i ∈ cached.map (·.int "id")) :
+    maxIdOrSizeChanged cached backend = true := by
+  cases h : maxIdOrSizeChanged cached backend with
+  | true => rfl
+  | false =>
+    exfalso
+    obtain ⟨hlen, hcase⟩ := maxIdOrSizeChanged_eq_false h
+    have hsub : ∀ i ∈ backend.map replyId, i ∈ cached.map (·.int "id") := by
+      intro i hi
+      obtain ⟨r, hr, rfl⟩ := List.mem_map.mp hi
+      apply Classical.byContradiction
+      intro hnot
+      rcases hcase with hnil | ⟨last, hlast, hmax⟩
+      · subst hnil
+        have : backend = [] := List.eq_nil_of_length_eq_zero (by simpa using hlen.symm)
+        rw [this] at hr; cases hr
+      · have hmem : last ∈ cached := List.mem_of_getLast? hlast
+        have h1 := hfresh r hr hnot last hmem
+        have h2 := (le_foldl_max replyId backend 0).2 r hr
+        omega
+    exact hdiff fun i =>
+      ⟨hsub i, subset_of_nodup_of_length_le hbn hsub (by simp [hlen]) i⟩
+
+theorem syncEntries_ids {tab : Table}
+    (hid : ∃ c, tab.col? "id" = some c ∧ c.storage = .loc ∧ c.dtype = .int64)
+    (cached : List Row) (backend : List ReplyRow) :
+    (syncEntries tab cached backend).map (·.int "id") =
+      (cached.map (·.int "id")).filter (fun i => (backend.map replyId).contains i) ++
+        (backend.map replyId).filter (fun i => !(cached.map (·.int "id")).contains i) := by
+  rw [syncEntries_eq, List.map_append, List.filter_map, List.filter_map, List.map_map]
+  congr 1
+  apply List.map_congr_left
+  intro r _
+  exact coerceRow_int_id hid r
+
+theorem mem_syncEntries_ids {tab : Table}
+    (hid : ∃ c, tab.col? "id" = some c ∧ c.storage = .loc ∧ c.dtype = .int64)
+    (cached : List Row) (backend : List ReplyRow) (i : Int) :
+    i ∈ (syncEntries tab cached backend).map (·.int "id") ↔ i ∈ backend.map replyId := by
+  rw [syncEntries_ids hid]
+  simp only [List.mem_append, List.mem_filter, List.contains_eq_mem, decide_eq_true_eq,
+    Bool.not_eq_true', decide_eq_false_iff_not]
+  constructor
+  · rintro (⟨_, h⟩ | ⟨h, _⟩) <;> exact h
+  · intro h
+    by_cases hc : i ∈ cached.map (·.int "id")
+    · exact Or.inl ⟨hc, h⟩
+    · exact Or.inr ⟨h, hc⟩
+
+theorem mem_syncEntries {tab : Table} {cached : List Row} {backend : List ReplyRow} {row : Row} :
+    row ∈ syncEntries tab cached backend ↔
+      (row ∈ cached ∧ row.int "id" ∈ backend.map replyId) ∨
+      ∃ r ∈ backend, replyId r ∉ cached.map (·.int "id") ∧ coerceRow tab r = row := by
+  rw [syncEntries_eq]
+  simp only [List.mem_append, List.mem_filter, List.mem_map, List.contains_eq_mem,
+    decide_eq_true_eq, Bool.not_eq_true', decide_eq_false_iff_not]
+  constructor
+  · rintro (h | ⟨r, ⟨hr, hn⟩, e⟩)
+    · exact Or.inl h
+    · exact Or.inr ⟨r, hr, hn, e⟩
+  · rintro (h | ⟨r, hr, hn, e⟩)
+    · exact Or.inl h
+    · exact Or.inr ⟨r, ⟨hr, hn⟩, e⟩
+
+/-- the cached entries agree with the backend rows of the same id on what they are attached to
+    (comments and downtimes never move to another object) -/
+def Faithful (cached : List Row) (backend : List ReplyRow) : Prop :=
+  ∀ c ∈ cached, ∀ r ∈ backend, c.int "id" = replyId r →
+    strCell c "host_name" = replyStr r "host_name" ∧
+    strCell c "service_description" = replyStr r "service_description"
+
+theorem mem_attachedIds_syncEntries {tab : Table} (ht : EntryTable tab) {cached : List Row}
+    {backend : List ReplyRow} (hf : Faithful cached backend) (h s : String) (i : Int) :
+    i ∈ attachedIds (syncEntries tab cached backend) h s ↔
+      ∃ r ∈ backend, replyId r = i ∧ replyStr r "host_name" = h ∧
+        replyStr r "service_description" = s := by
+  rw [mem_attachedIds]
+  constructor
+  · rintro ⟨e, he, hi, hh, hs⟩
+    rcases mem_syncEntries.mp he with ⟨hc, hb⟩ | ⟨r, hr, _, rfl⟩
+    · obtain ⟨r, hr, hri⟩ := List.mem_map.mp hb
+      have := hf e hc r hr hri.symm
+      exact ⟨r, hr, hri.trans hi, this.1 ▸ hh, this.2 ▸ hs⟩
+    · refine ⟨r, hr, ?_, ?_, ?_⟩
+      · rw [← coerceRow_int_id ht.id r]; exact hi
+      · rw [← coerceRow_strCell ht.host r]; exact hh
+      · rw [← coerceRow_strCell ht.svc r]; exact hs
+  · rintro ⟨r, hr, hi, hh, hs⟩
+    by_cases hc : replyId r ∈ cached.map (·.int "id")
+    · obtain ⟨c, hcm, hci⟩ := List.mem_map.mp hc
+      have := hf c hcm r hr hci
+      refine ⟨c, mem_syncEntries.mpr (Or.inl ⟨hcm, ?_⟩), hci.trans hi, this.1.trans hh, this.2.trans hs⟩
+      rw [hci]; exact List.mem_map.mpr ⟨r, hr, rfl⟩
+    · refine ⟨coerceRow tab r, mem_syncEntries.mpr (Or.inr ⟨r, hr, hc, rfl⟩), ?_, ?_, ?_⟩
+      · rw [coerceRow_int_id ht.id r]; exact hi
+      · rw [coerceRow_strCell ht.host r]; exact hh
+      · rw [coerceRow_strCell ht.svc r]; exact hs
+
 /-! ## 7. export followed by import -/
 
 theorem milliTrunc_mul (n : Int) : milliTrunc (n * 1000) = n := by
@@ -671,5 +802,124 @@ theorem checkInt8_out {i : Int} (h : i < -128 ∨ 127 < i) : checkInt8 i = 0 := 
 
 theorem int_roundtrip (n : Int) : milliTrunc (jsonToMilli (intJson n)) = n := by
   simp only [intJson, jsonToMilli, jsonNumMilli_int, milliTrunc_mul]
+
+theorem strList_roundtrip (l : List String) : jsonToStrList (.arr (l.map Json.str).toArray) = l := by
+  show (l.map Json.str).toArray.toList.map jsonToStr = l
+  rw [List.toList_toArray, List.map_map]
+  exact (List.map_congr_left (fun _ _ => rfl)).trans (List.map_id l)
+
+theorem intList_roundtrip (l : List Int) : jsonToIntList (.arr (l.map intJson).toArray) = l := by
+  show (l.map intJson).toArray.toList.map (fun j => milliTrunc (jsonToMilli j)) = l
+  rw [List.toList_toArray, List.map_map]
+  refine (List.map_congr_left (fun n _ => ?_)).trans (List.map_id l)
+  exact int_roundtrip n
+
+theorem members_roundtrip (l : List (String × String)) :
+    jsonToMembers (.arr (l.map (fun (a, b) => Json.arr #[.str a, .str b])).toArray) = l := by
+  show (l.map (fun (a, b) => Json.arr #[.str a, .str b])).toArray.toList.map _ = l
+  rw [List.toList_toArray, List.map_map]
+  exact (List.map_congr_left (fun _ _ => rfl)).trans (List.map_id l)
+
+theorem ifaceList_form (j : Json) : ∃ v, coerce .ifaceList j = .jl v := by
+  cases j <;> exact ⟨_, rfl⟩
+
+/-- a value that came out of coercion survives export and import -/
+theorem coerce_valJson_coerce (t : DataType) (j : Json) :
+    coerce t (valJson (coerce t j)) = coerce t j := by
+  cases t with
+  | str => rfl
+  | strLarge => rfl
+  | json => rfl
+  | customVar => rfl
+  | int =>
+    show Val.i (checkInt8 (milliTrunc (jsonToMilli (intJson (checkInt8 (milliTrunc (jsonToMilli j))))))) = _
+    rw [int_roundtrip, checkInt8_idem]; rfl
+  | int64 =>
+    show Val.i (milliTrunc (jsonToMilli (intJson (milliTrunc (jsonToMilli j))))) = _
+    rw [int_roundtrip]; rfl
+  | float =>
+    show Val.f (jsonNumMilli ⟨jsonToMilli j, 3⟩) = _
+    rw [jsonNumMilli_milli]; rfl
+  | strList =>
+    show Val.sl (jsonToStrList (.arr ((jsonToStrList j).map Json.str).toArray)) = _
+    rw [strList_roundtrip]; rfl
+  | int64List =>
+    show Val.il (jsonToIntList (.arr ((jsonToIntList j).map intJson).toArray)) = _
+    rw [intList_roundtrip]; rfl
+  | svcMemberList =>
+    show Val.ml (jsonToMembers (.arr ((jsonToMembers j).map
+      (fun (a, b) => Json.arr #[.str a, .str b])).toArray)) = _
+    rw [members_roundtrip]; rfl
+  | ifaceList =>
+    obtain ⟨v, hv⟩ := ifaceList_form j
+    rw [hv]
+    show Val.jl v.toArray.toList = _
+    rw [List.toList_toArray]
+
+/-- the exported cells of a cached row (`valJson` of every cell) -/
+def exported (r : Row) : ReplyRow := r.cells.map (fun p => (p.1, valJson p.2))
+
+theorem coerceRow_exported (t : Table) (r : Row)
+    (h : ∀ p ∈ r.cells, ∃ c, t.col? p.1 = some c ∧ c.storage = .loc ∧
+      coerce c.dtype (valJson p.2) = p.2) :
+    coerceRow t (exported r) = r := by
+  rw [coerceRow_eq]
+  obtain ⟨cells⟩ := r
+  simp only [exported, Row.mk.injEq]
+  simp only at h
+  induction cells with
+  | nil => rfl
+  | cons p l ih =>
+    obtain ⟨c, hc, hl, hv⟩ := h p (by simp)
+    have hcell : cellOf t (p.1, valJson p.2) = some p := by
+      unfold cellOf
+      simp only [hc, hl, beq_self_eq_true, if_true, hv]
+    rw [List.map_cons, List.filterMap_cons, hcell]
+    simp only [List.cons.injEq, true_and]
+    exact ih (fun q hq => h q (List.mem_cons_of_mem _ hq))
+
+theorem coerceRow_cells_typed (t : Table) (r : ReplyRow) :
+    ∀ p ∈ (coerceRow t r).cells, ∃ c j, t.col? p.1 = some c ∧ c.storage = .loc ∧
+      p.2 = coerce c.dtype j := by
+  intro p hp
+  rw [coerceRow_eq] at hp
+  obtain ⟨q, _, hq⟩ := List.mem_filterMap.mp hp
+  unfold cellOf at hq
+  split at hq
+  · rename_i c hc
+    by_cases hs : (c.storage == Storage.loc) = true
+    · simp only [hs, if_true, Option.some.injEq] at hq
+      subst hq
+      exact ⟨c, q.2, hc, by simpa using hs, rfl⟩
+    · simp [hs] at hq
+  · cases hq
+
+theorem localVal_lc_congr (t : Table) (r r' : Row) (c base : Column)
+    (hs : hasSuffix c.name "_lc" = true) (hb : t.col? (trimSuffix c.name "_lc") = some base)
+    (h : r.cell? base.name = r'.cell? base.name) : localVal t r c = localVal t r' c := by
+  unfold localVal
+  simp only [hs, if_true, hb, h]
+
+theorem cell?_filter (r : Row) (keep : String → Bool) (n : String) (hk : keep n = true) :
+    ({ cells := r.cells.filter (fun p => keep p.1) } : Row).cell? n = r.cell? n := by
+  unfold Row.cell?
+  simp only
+  congr 1
+  induction r.cells with
+  | nil => rfl
+  | cons p l ih =>
+    by_cases hp : (p.1 == n) = true
+    · have hpn : p.1 = n := by simpa using hp
+      have hkp : keep p.1 = true := by rw [hpn]; exact hk
+      rw [List.filter_cons_of_pos (by simpa using hkp),
+        List.find?_cons_of_pos (p := fun x : String × Val => x.1 == n) hp,
+        List.find?_cons_of_pos (p := fun x : String × Val => x.1 == n) hp]
+    · rw [List.find?_cons_of_neg (l := l) (p := fun x : String × Val => x.1 == n) hp]
+      by_cases hkp : keep p.1 = true
+      · rw [List.filter_cons_of_pos (by simpa using hkp),
+          List.find?_cons_of_neg (p := fun x : String × Val => x.1 == n) hp]
+        exact ih
+      · rw [List.filter_cons_of_neg (by simpa using hkp)]
+        exact ih
 
 end Lmd.SyncLemmas
